@@ -1,4 +1,5 @@
 import ast
+import math
 from enum import Enum
 from enum import Flag
 from functools import singledispatch
@@ -123,6 +124,11 @@ def _(value: Flag):
 
 @customize_repr
 def _(value: complex):
+    if any(p == 0 and math.copysign(1, p) < 0 for p in (value.real, value.imag)):
+        # the sign of a negative zero gets lost when the repr() is evaluated
+        # (-0-1j is 0-1j) and the code would be changed again by the next update
+        return f"complex({value.real!r}, {value.imag!r})"
+
     # repr() encloses complex numbers which have a real part in parentheses,
     # but these parentheses are not part of the ast node of the value
     # and would be added again with every update
